@@ -747,6 +747,10 @@ func (e *env) probe(y []byte, in probeIn, src, mut string) {
 			vio(o, "accepted although no ENABLED key of the keyset accepts it (%s)", desc())
 		}
 	}
+	if f.cmd == "mac" && len(y) <= 5 && enabledAcc {
+		// wrappedMAC's documented extra rule (in the model as macAccept): such a tag is refused
+		o.Count("mac/tag<=5-bytes-valid-under-an-enabled-key/" + verdict)
+	}
 	if !r1.ok && enabledAcc && !(f.cmd == "mac" && len(y) <= 5) {
 		vio(o, "rejected although an ENABLED key of the keyset accepts it (%s)", desc())
 	}
